@@ -116,7 +116,7 @@ class Model:
         return self.bufs.get(self.bstack[-1])
 
     def lineno(self):
-        if self.sc.flavor == 'nr':
+        if self.sc.flavor in ('nr', 'cxx'):
             return self.g_lineno
         b = self.cur()
         return b.lineno if b else None
@@ -124,7 +124,7 @@ class Model:
     def add_lineno(self, d):
         if not self.sc.lineno:
             return
-        if self.sc.flavor == 'nr':
+        if self.sc.flavor in ('nr', 'cxx'):
             self.g_lineno += d
         else:
             b = self.cur()
@@ -141,7 +141,7 @@ class Model:
         if got != exp:
             self.v('lineno', ev, '%s: yylineno=%d expected %d' % (where, got, exp))
             # resynchronise so that one defect is reported once
-            if self.sc.flavor == 'nr':
+            if self.sc.flavor in ('nr', 'cxx'):
                 self.g_lineno = got
             elif self.cur():
                 self.cur().lineno = got
@@ -476,7 +476,7 @@ class Model:
             if op == 'GET_LINENO':
                 self.expect_getlineno = True
         elif op == 'SET_LINENO':
-            if self.sc.flavor == 'nr':
+            if self.sc.flavor in ('nr', 'cxx'):
                 self.g_lineno = a
             elif b is not None:
                 b.lineno = a
@@ -827,7 +827,7 @@ class Model:
             # the token followed an unspecified situation (yymore pending at a
             # source change): take the scanner's count as the new base
             self.resync_lineno = False
-            if self.sc.flavor == 'nr':
+            if self.sc.flavor in ('nr', 'cxx'):
                 self.g_lineno = ev['lineno']
             elif self.cur():
                 self.cur().lineno = ev['lineno']
